@@ -315,15 +315,14 @@ impl Request {
         }
 
         if new_line_char_found && !current_string_is_empty {
-            let mut header = Header { name: "".to_string(), value: "".to_string() };
             if !is_first_iteration {
-                header = Request::parse_http_request_header_string(&string);
+                let header = Request::parse_http_request_header_string(&string);
                 if header.name == Header::_CONTENT_LENGTH {
                     content_length = header.value.parse().unwrap();
                 }
+                request.headers.push(header);
             }
 
-            request.headers.push(header);
             iteration_number += 1;
             let boxed_read = Request::cursor_read(cursor, iteration_number, request, content_length);
             if boxed_read.is_err() {
